@@ -712,6 +712,506 @@ fn program_strategy(max_threads: usize) -> impl Strategy<Value = Program> {
         .prop_map(|(contexts, shared, cancel, threads)| Program { contexts, shared, cancel, threads })
 }
 
+// ------------------------------------------------------------------------------------------------
+// settings construction forms vs the legacy thread-local settings
+// ------------------------------------------------------------------------------------------------
+
+#[derive(Clone, Debug, Serialize, Deserialize, PartialEq, Eq, Hash)]
+struct FormStep {
+    form: u8,
+    content: u8,
+}
+
+#[derive(Clone, Debug, Serialize, Deserialize, PartialEq, Eq, Hash)]
+struct FormThread {
+    /// deprecated thread-local setters applied on this thread before anything is built
+    tl_pre: Vec<u8>,
+    steps: Vec<FormStep>,
+}
+
+#[derive(Clone, Debug, Serialize, Deserialize, PartialEq, Eq, Hash)]
+struct FormCase {
+    threads: Vec<FormThread>,
+}
+
+const FORM_NAMES: [&str; 21] = [
+    "ctx_with_settings_str_json",
+    "ctx_with_settings_str_toml",
+    "ctx_with_settings_string_json",
+    "ctx_with_settings_string_toml",
+    "ctx_with_settings_value",
+    "ctx_with_settings_settings",
+    "ctx_with_settings_ref_settings",
+    "ctx_set_settings_str_json",
+    "ctx_set_settings_value",
+    "ctx_set_settings_settings",
+    "ctx_set_settings_ref_settings",
+    "ctx_set_settings_string_toml",
+    "settings_with_json",
+    "settings_with_toml",
+    "settings_with_value",
+    "settings_update_from_str_json",
+    "settings_update_from_str_toml",
+    "settings_set_value",
+    "settings_with_file_json",
+    "settings_with_file_toml",
+    "ctx_new_plain",
+];
+const N_FORMS: u8 = 21;
+const N_CONTENTS: u8 = 6;
+const N_TL2: u8 = 7;
+
+fn content_leaves(c: u8) -> Vec<(&'static str, Value)> {
+    match c % N_CONTENTS {
+        0 => vec![("verify.verify_after_reading", json!(false))],
+        1 => vec![("core.merkle_tree_max_proofs", json!(7))],
+        2 => vec![("verify.remote_manifest_fetch", json!(false)), ("verify.ocsp_fetch", json!(true))],
+        3 => vec![("builder.vendor", json!("formvendor")), ("core.prefer_compress_manifests", json!(true))],
+        4 => vec![("builder.thumbnail.enabled", json!(false)), ("verify.verify_trust", json!(false))],
+        _ => vec![("verify.verify_trust", json!("not a bool"))], // rejected by every form
+    }
+}
+
+fn content_json(c: u8) -> Value {
+    let mut v = json!({});
+    for (path, leaf) in content_leaves(c) {
+        let mut cur = &mut v;
+        for part in path.split('.') {
+            cur = &mut cur[part];
+        }
+        *cur = leaf;
+    }
+    v
+}
+
+/// Generated non-default legacy thread-local states (deprecated setters).
+#[allow(deprecated)]
+fn tl_set2(which: u8) -> c2pa::Result<()> {
+    match which % N_TL2 {
+        0 => Settings::from_toml("[verify]\nverify_trust = false\nverify_after_sign = false\n"),
+        1 => Settings::from_string(&json!({"core": {"merkle_tree_chunk_size_in_kb": 1, "prefer_compress_manifests": true}}).to_string(), "json").map(|_| ()),
+        2 => Settings::from_toml("[builder]\nvendor = \"tlvendor\"\n[builder.claim_generator_info]\nname = \"tl-generator\"\n"),
+        3 => Settings::from_string("[verify]\nstrict_v1_validation = true\nremote_manifest_fetch = false\n", "toml").map(|_| ()),
+        4 => Settings::from_string(&json!({"core": {"merkle_tree_max_proofs": 9, "backing_store_memory_threshold_in_mb": 3}}).to_string(), "json").map(|_| ()),
+        5 => Settings::from_toml("[verify]\nverify_after_reading = false\nocsp_fetch = true\n[builder.thumbnail]\nenabled = false\n"),
+        _ => Settings::from_string(&json!({"trust": {"trust_anchors": sdk::test_anchors()}, "verify": {"verify_timestamp_trust": false}}).to_string(), "json").map(|_| ()),
+    }
+}
+
+static FILE_NO: AtomicU64 = AtomicU64::new(0);
+
+fn work_dir() -> std::path::PathBuf {
+    vh::core::verif_root().join("work").join("C24")
+}
+
+/// One way of constructing settings / a context from `content`; normal form = the resulting `Settings` as JSON.
+#[allow(deprecated)]
+fn exec_form(form: u8, content: u8, selftest: &str) -> Outcome {
+    let j = content_json(content);
+    let js = j.to_string();
+    let ts = toml::to_string(&j).unwrap_or_default();
+    let leaves = content_leaves(content);
+    let form = form % N_FORMS;
+    if selftest == "value-form-leak" && (form == 4 || form == 8) {
+        // sensitivity: the Value form routed through the legacy thread-local path
+        let _ = vh::catch(|| Settings::from_string(&js, "json").map(|_| ()));
+    }
+    let of_ctx = |r: c2pa::Result<Context>| r.map(|c| c.settings().clone());
+    let set = |f: &dyn Fn(&mut Context) -> c2pa::Result<()>| {
+        let mut c = Context::new();
+        f(&mut c)?;
+        Ok(c.settings().clone())
+    };
+    let r: Result<c2pa::Result<Settings>, String> = vh::catch(|| match form {
+        0 => of_ctx(Context::new().with_settings(js.as_str())),
+        1 => of_ctx(Context::new().with_settings(ts.as_str())),
+        2 => of_ctx(Context::new().with_settings(js.clone())),
+        3 => of_ctx(Context::new().with_settings(ts.clone())),
+        4 => of_ctx(Context::new().with_settings(j.clone())),
+        5 => {
+            let st = Settings::new().with_json(&js)?;
+            of_ctx(Context::new().with_settings(st))
+        }
+        6 => {
+            let st = Settings::new().with_toml(&ts)?;
+            of_ctx(Context::new().with_settings(&st))
+        }
+        7 => set(&|c| c.set_settings(js.as_str())),
+        8 => set(&|c| c.set_settings(j.clone())),
+        9 => {
+            let st = Settings::new().with_toml(&ts)?;
+            set(&|c| c.set_settings(st.clone()))
+        }
+        10 => {
+            let st = Settings::new().with_json(&js)?;
+            set(&|c| c.set_settings(&st))
+        }
+        11 => set(&|c| c.set_settings(ts.clone())),
+        12 => Settings::new().with_json(&js),
+        13 => Settings::new().with_toml(&ts),
+        14 => {
+            let mut st = Settings::new();
+            for (p, v) in &leaves {
+                st = st.with_value(p, v.clone())?;
+            }
+            Ok(st)
+        }
+        15 => {
+            let mut st = Settings::default();
+            st.update_from_str(&js, "json")?;
+            Ok(st)
+        }
+        16 => {
+            let mut st = Settings::default();
+            st.update_from_str(&ts, "toml")?;
+            Ok(st)
+        }
+        17 => {
+            let mut st = Settings::new();
+            for (p, v) in &leaves {
+                st.set_value(p, v.clone())?;
+            }
+            Ok(st)
+        }
+        18 | 19 => {
+            let (ext, text) = if form == 18 { ("json", &js) } else { ("toml", &ts) };
+            let f = work_dir().join(format!("form-{}-{}.{ext}", std::process::id(), FILE_NO.fetch_add(1, Ordering::SeqCst)));
+            std::fs::write(&f, text).map_err(c2pa::Error::IoError)?;
+            let r = Settings::new().with_file(&f);
+            let _ = std::fs::remove_file(&f);
+            r
+        }
+        _ => Ok(Context::new().settings().clone()),
+    });
+    wrap(r, |st| Outcome::Ok(serde_json::to_value(&st).unwrap_or(Value::Null)))
+}
+
+static FORM_BASELINES: Mutex<Option<HashMap<(u8, u8), Outcome>>> = Mutex::new(None);
+
+/// The form on a pristine (fresh) thread.
+fn form_baseline(form: u8, content: u8) -> Outcome {
+    let key = (form % N_FORMS, content % N_CONTENTS);
+    if let Some(o) = FORM_BASELINES.lock().unwrap().get_or_insert_with(HashMap::new).get(&key) {
+        return o.clone();
+    }
+    let o = std::thread::scope(|s| s.spawn(|| exec_form(form, content, "")).join().unwrap_or(Outcome::Panic("baseline thread".into())));
+    FORM_BASELINES.lock().unwrap().get_or_insert_with(HashMap::new).insert(key, o.clone());
+    o
+}
+
+fn first_line_diff(a: &str, b: &str) -> String {
+    a.lines().zip(b.lines()).find(|(x, y)| x != y).map(|(x, y)| format!("`{x}` became `{y}`")).unwrap_or_else(|| format!("{} vs {} lines", a.lines().count(), b.lines().count()))
+}
+
+fn judge_forms(run: &Run, case: &FormCase, selftest: &str) -> CaseResult {
+    let pristine = std::thread::scope(|s| s.spawn(tl_snapshot).join().unwrap_or_default());
+    for t in &case.threads {
+        for st in &t.steps {
+            form_baseline(st.form, st.content);
+        }
+    }
+    struct FRec {
+        thread: usize,
+        step: usize,
+        before: String,
+        after: String,
+        out: Outcome,
+        nondefault: bool,
+    }
+    let recs: Mutex<Vec<FRec>> = Mutex::new(vec![]);
+    let start_bad: Mutex<Vec<usize>> = Mutex::new(vec![]);
+    let barrier = Barrier::new(case.threads.len().max(1));
+    std::thread::scope(|s| {
+        for (ti, tp) in case.threads.iter().enumerate() {
+            let (recs, start_bad, barrier, pristine) = (&recs, &start_bad, &barrier, &pristine);
+            s.spawn(move || {
+                if tl_snapshot() != *pristine {
+                    start_bad.lock().unwrap().push(ti);
+                }
+                for w in &tp.tl_pre {
+                    let _ = vh::catch(|| tl_set2(*w));
+                }
+                let nondefault = tl_snapshot() != *pristine;
+                barrier.wait();
+                for (si, st) in tp.steps.iter().enumerate() {
+                    let before = tl_snapshot();
+                    let out = exec_form(st.form, st.content, selftest);
+                    let after = tl_snapshot();
+                    recs.lock().unwrap().push(FRec { thread: ti, step: si, before, after, out, nondefault });
+                    std::thread::yield_now();
+                }
+            });
+        }
+    });
+    if let Some(ti) = start_bad.into_inner().unwrap().first() {
+        return Err(Fail::new("C24:fresh-thread-local-settings-not-default", format!("settings-forms thread {ti} starts with non-default thread-local settings")));
+    }
+    let mut recs = recs.into_inner().unwrap();
+    recs.sort_by_key(|r| (r.thread, r.step));
+    let mut any_nondefault = false;
+    for r in &recs {
+        let st = &case.threads[r.thread].steps[r.step];
+        let name = FORM_NAMES[(st.form % N_FORMS) as usize];
+        run.count(&format!("settings_form_{name}"));
+        if r.nondefault {
+            run.count("tls_nondefault_before_build");
+            any_nondefault = true;
+        } else {
+            run.count("tls_default_before_build");
+        }
+        if r.after != r.before {
+            return Err(Fail::new(
+                format!("C24:settings-construction-changes-thread-local:{name}"),
+                format!(
+                    "thread {} (legacy setters before: {:?}) step {}: {name} with {} changes Settings::to_toml() of the calling thread: {}",
+                    r.thread,
+                    case.threads[r.thread].tl_pre,
+                    r.step,
+                    content_json(st.content),
+                    first_line_diff(&r.before, &r.after)
+                ),
+            ));
+        }
+        let base = form_baseline(st.form, st.content);
+        if r.out != base {
+            let d = match (&base, &r.out) {
+                (Outcome::Ok(a), Outcome::Ok(b)) => vh::defgen::first_diff(a, b, "").unwrap_or_else(|| "?".into()),
+                (a, b) => format!("{} vs {}", a.short(), b.short()),
+            };
+            return Err(Fail::new(
+                format!("C24:settings-construction-depends-on-thread-local:{name}"),
+                format!(
+                    "thread {} (legacy setters before: {:?}) step {}: {name} with {} gives other settings than on a pristine thread: {d}",
+                    r.thread,
+                    case.threads[r.thread].tl_pre,
+                    r.step,
+                    content_json(st.content)
+                ),
+            ));
+        }
+        run.count(match &r.out {
+            Outcome::Ok(_) => "settings_form_result:ok",
+            _ => "settings_form_result:rejected",
+        });
+    }
+    if any_nondefault {
+        run.nontrivial(case);
+    }
+    Ok(())
+}
+
+fn forms_strategy() -> impl Strategy<Value = FormCase> {
+    let step = (0u8..N_FORMS, 0u8..N_CONTENTS).prop_map(|(form, content)| FormStep { form, content });
+    let thread = (prop_oneof![1 => Just(vec![]), 4 => proptest::collection::vec(0u8..N_TL2, 1..=3)], proptest::collection::vec(step, 1..=5)).prop_map(|(tl_pre, steps)| FormThread { tl_pre, steps });
+    proptest::collection::vec(thread, 1..=4).prop_map(|threads| FormCase { threads })
+}
+
+// ------------------------------------------------------------------------------------------------
+// cancel histories: a cancelled context stays cancelled
+// ------------------------------------------------------------------------------------------------
+
+#[derive(Clone, Debug, Serialize, Deserialize, PartialEq, Eq, Hash)]
+struct CancelCase {
+    variant_a: u8,
+    variant_b: u8,
+    /// 0 cancel, then all operations one after the other on one thread; 1 cancel, then the threads run concurrently;
+    /// 2 every thread's first operation is parked inside its first progress callback when cancel() is called
+    mode: u8,
+    /// operations on the cancelled context, per thread (`ctx` fields are ignored)
+    threads: Vec<Vec<Op>>,
+    /// operations of the bystander thread on the other context
+    bystander: Vec<Op>,
+}
+
+struct Park {
+    gen: u64,
+    enabled: bool,
+    arrived: AtomicU64,
+    release: std::sync::atomic::AtomicBool,
+    timed_out: std::sync::atomic::AtomicBool,
+}
+
+thread_local! {
+    static PARKED_GEN: std::cell::Cell<u64> = const { std::cell::Cell::new(0) };
+}
+static PARK_GEN: AtomicU64 = AtomicU64::new(1);
+
+fn judge_cancel(run: &Run, case: &CancelCase, selftest: &str) -> CaseResult {
+    use std::sync::atomic::AtomicBool;
+    let mode = case.mode % 3;
+    let va = case.variant_a % N_SETTINGS;
+    let vb = case.variant_b % N_SETTINGS;
+    // operations on A: only sign with an explicit signer and read (first checkpoint precedes every result)
+    let norm = |op: &Op| match op {
+        Op::Sign { src, alg, .. } => Op::Sign { ctx: 0, src: *src, alg: *alg, via_ctx_signer: false },
+        Op::Read { asset, .. } => Op::Read { ctx: 0, asset: *asset },
+        _ => Op::Read { ctx: 0, asset: 0 },
+    };
+    let mut threads: Vec<Vec<Op>> = case.threads.iter().map(|t| t.iter().map(norm).collect::<Vec<_>>()).filter(|t: &Vec<Op>| !t.is_empty()).collect();
+    if threads.is_empty() {
+        threads.push(vec![Op::Read { ctx: 0, asset: 0 }]);
+    }
+    if mode == 0 {
+        threads = vec![threads.into_iter().flatten().collect()];
+    }
+    if threads.iter().map(|t| t.len()).sum::<usize>() < 2 {
+        threads[0].push(Op::Read { ctx: 0, asset: 1 });
+    }
+    let total: usize = threads.iter().map(|t| t.len()).sum();
+    let bystander: Vec<Op> = case.bystander.iter().map(norm).collect();
+    for op in &bystander {
+        baseline(op, vb, false);
+    }
+
+    let park = Arc::new(Park { gen: PARK_GEN.fetch_add(1, Ordering::SeqCst), enabled: mode == 2, arrived: AtomicU64::new(0), release: AtomicBool::new(false), timed_out: AtomicBool::new(false) });
+    let pk = park.clone();
+    let ctx_a = Arc::new(sdk::context_with(&ctx_settings(va)).with_progress_callback(move |_p, _s, _t| {
+        if pk.enabled && PARKED_GEN.with(|g| g.get()) != pk.gen {
+            PARKED_GEN.with(|g| g.set(pk.gen));
+            pk.arrived.fetch_add(1, Ordering::SeqCst);
+            let mut spins = 0u32;
+            while !pk.release.load(Ordering::SeqCst) {
+                std::thread::sleep(std::time::Duration::from_millis(1));
+                spins += 1;
+                if spins > 60_000 {
+                    pk.timed_out.store(true, Ordering::SeqCst);
+                    break;
+                }
+            }
+        }
+        true
+    }));
+    let ctx_b = Arc::new(sdk::context_with(&ctx_settings(vb)));
+    let consumed = AtomicBool::new(false);
+    // (thread, step, outcome, is_cancelled after, parked at cancel)
+    let recs: Mutex<Vec<(usize, usize, Outcome, bool, bool)>> = Mutex::new(vec![]);
+    let by_recs: Mutex<Vec<(usize, Outcome)>> = Mutex::new(vec![]);
+    let no_checkpoint = AtomicU64::new(0);
+    if mode != 2 {
+        ctx_a.cancel();
+    }
+    let barrier = Barrier::new(threads.len() + 1);
+    std::thread::scope(|s| {
+        for (ti, ops) in threads.iter().enumerate() {
+            let (ctx_a, recs, park, barrier, consumed, no_checkpoint) = (&ctx_a, &recs, &park, &barrier, &consumed, &no_checkpoint);
+            s.spawn(move || {
+                barrier.wait();
+                for (si, op) in ops.iter().enumerate() {
+                    let out = if selftest == "cancel-consumed" && consumed.swap(true, Ordering::SeqCst) {
+                        // sensitivity: the cancellation was consumed by the first operation
+                        exec(&Arc::new(sdk::context_with(&ctx_settings(va))), op)
+                    } else {
+                        exec(ctx_a, op)
+                    };
+                    let mut parked = false;
+                    if park.enabled && si == 0 {
+                        if PARKED_GEN.with(|g| g.get()) != park.gen {
+                            // the operation ended without reaching a checkpoint: do not keep the canceller waiting
+                            PARKED_GEN.with(|g| g.set(park.gen));
+                            park.arrived.fetch_add(1, Ordering::SeqCst);
+                            no_checkpoint.fetch_add(1, Ordering::SeqCst);
+                        } else {
+                            parked = true;
+                        }
+                    }
+                    recs.lock().unwrap().push((ti, si, out, ctx_a.is_cancelled(), parked));
+                }
+            });
+        }
+        {
+            let (ctx_b, by_recs, bystander) = (&ctx_b, &by_recs, &bystander);
+            let barrier = &barrier;
+            s.spawn(move || {
+                barrier.wait();
+                for (i, op) in bystander.iter().enumerate() {
+                    by_recs.lock().unwrap().push((i, exec(ctx_b, op)));
+                }
+            });
+        }
+        if mode == 2 {
+            // the canceller: wait until every thread is parked inside its first callback, cancel, release
+            let mut spins = 0u32;
+            while (park.arrived.load(Ordering::SeqCst) as usize) < threads.len() {
+                std::thread::sleep(std::time::Duration::from_millis(1));
+                spins += 1;
+                if spins > 60_000 {
+                    park.timed_out.store(true, Ordering::SeqCst);
+                    break;
+                }
+            }
+            ctx_a.cancel();
+            park.release.store(true, Ordering::SeqCst);
+        }
+    });
+    if park.timed_out.load(Ordering::SeqCst) {
+        run.inconclusive("cancel history: parked operations did not line up within 60 s");
+        return Ok(());
+    }
+    run.count(&format!("cancel_history:mode:{}", ["sequential", "concurrent-after-cancel", "parked-in-callback"][mode as usize]));
+    run.count_n("cancel_history:ops_on_cancelled_context", total as u64);
+    if total >= 2 {
+        run.count("ops_after_cancel_ge2");
+    }
+    let mut recs = recs.into_inner().unwrap();
+    recs.sort_by_key(|r| (r.0, r.1));
+    let n_parked = recs.iter().filter(|r| r.4).count();
+    if n_parked > 0 {
+        run.count_n("parked_ops_at_cancel", n_parked as u64);
+    }
+    if no_checkpoint.load(Ordering::SeqCst) > 0 {
+        run.count_n("parked:first-op-ended-without-checkpoint", no_checkpoint.load(Ordering::SeqCst));
+    }
+    let mode_name = ["sequential", "concurrent", "parked"][mode as usize];
+    let history = || format!("context settings variant {va}, mode {mode_name}, operations per thread {:?}", threads.iter().map(|t| t.iter().map(|o| op_key(o, va)).collect::<Vec<_>>()).collect::<Vec<_>>());
+    for (ti, si, out, still, parked) in &recs {
+        let op = &threads[*ti][*si];
+        if !out.cancelled() {
+            let which = if *parked { "parked-at-cancel" } else if *si == 0 && mode != 0 { "first-on-its-thread" } else { "later" };
+            return Err(Fail::new(
+                format!("C24:operation-on-cancelled-context-not-cancelled:{}:{mode_name}:{which}", op_name(op)),
+                format!("thread {ti} step {si} ({}) ended {} although cancel() on its context {}; {}", op_key(op, va), out.short(), if *parked { "was called while it was parked in its first progress callback" } else { "had returned before it started" }, history()),
+            ));
+        }
+        if !*still {
+            return Err(Fail::new("C24:is_cancelled-reset-after-operation", format!("is_cancelled() is false after thread {ti} step {si} ({}); {}", op_key(op, va), history())));
+        }
+    }
+    if !ctx_a.is_cancelled() {
+        return Err(Fail::new("C24:is_cancelled-reset-after-operation", format!("is_cancelled() is false at the end; {}", history())));
+    }
+    if ctx_b.is_cancelled() {
+        return Err(Fail::new("C24:cancel-leaked-to-other-context:flag", format!("bystander context reports is_cancelled(); {}", history())));
+    }
+    for (i, out) in by_recs.into_inner().unwrap() {
+        let op = &bystander[i];
+        run.count("cancel_history:bystander_op");
+        let base = baseline(op, vb, false);
+        if out.cancelled() && !base.cancelled() {
+            return Err(Fail::new("C24:cancel-leaked-to-other-context:bystander", format!("bystander {} ended with OperationCancelled; {}", op_key(op, vb), history())));
+        }
+        if out != base {
+            if baseline(op, vb, true) != base {
+                run.count("baseline-unstable(not judged)");
+                continue;
+            }
+            return Err(Fail::new(format!("C24:result-differs-under-concurrency:{}:bystander", op_name(op)), format!("bystander {}: alone {} vs beside a cancelled context {}; {}", op_key(op, vb), base.short(), out.short(), history())));
+        }
+    }
+    run.nontrivial(case);
+    Ok(())
+}
+
+fn cancel_strategy() -> impl Strategy<Value = CancelCase> {
+    let op = prop_oneof![
+        3 => (0u8..6).prop_map(|asset| Op::Read { ctx: 0, asset }),
+        2 => (0u8..N_SRC, 0u8..7).prop_map(|(src, alg)| Op::Sign { ctx: 0, src, alg, via_ctx_signer: false }),
+    ];
+    let thread = proptest::collection::vec(op.clone(), 1..=3);
+    (0u8..N_SETTINGS, 0u8..N_SETTINGS, 0u8..3, prop_oneof![2 => proptest::collection::vec(thread.clone(), 1..=4), 1 => proptest::collection::vec(thread, 5..=16)], proptest::collection::vec(op, 0..=3))
+        .prop_map(|(variant_a, variant_b, mode, threads, bystander)| CancelCase { variant_a, variant_b, mode, threads, bystander })
+}
+
+
 fn main() {
     vh::quiet_panics();
     let run = Run::from_args("C24", "exploration");
@@ -720,6 +1220,7 @@ fn main() {
     run.assume("schedules are whatever the OS produces: randomised stress, not an enumeration of interleavings; barriers and yields come from the case");
     run.assume("the sequential baseline of an operation is deterministic (checked again on a mismatch; an unstable baseline is counted and left to C38)");
     run.assume("operations on the cancelled context that may overlap cancel() are accepted with the baseline result or OperationCancelled; other outcomes there are counted only (C23)");
+    run.note("second part 'settings_forms': 1-4 threads, each first sets generated non-default legacy thread-local settings (0-3 of 7 deprecated setter calls), then runs 1-5 of 21 construction forms (Context::with_settings / set_settings with &str JSON, &str TOML, String, serde_json::Value, Settings, &Settings; Settings::with_json / with_toml / with_value / with_file json+toml / update_from_str json+toml / set_value; Context::new) x 6 contents (one rejected): Settings::to_toml() of the thread must be byte-identical before and after every call and the resulting settings must equal those built on a pristine thread; a grid runs every form x content x 4 thread-local states. Third part 'cancel_histories': cancel() on a shared context followed by >= 2 sign/read operations sequentially, concurrently on 1-16 threads, or with every thread's first operation parked inside its first progress callback when cancel() is called: each must end with OperationCancelled, is_cancelled() stays true, a bystander context's operations equal their baselines");
     run.note("the asset class 'BMFF Merkle tree over two mdat boxes' (known nondeterministic validation, C38/C17) is replaced by the one-mdat Merkle asset and counted under excluded_known");
     let _ = inputs();
 
@@ -730,5 +1231,17 @@ fn main() {
     } else {
         run.drive_par("programs", 3000, 4, program_strategy(max_threads), |p| judge(&run, p, &selftest));
     }
+    // every way of building settings / a context, on threads with generated non-default legacy settings
+    let _ = std::fs::create_dir_all(work_dir());
+    let mut all_forms: Vec<FormCase> = vec![];
+    for pre in [vec![], vec![4u8], vec![3, 5], vec![0, 1, 6]] {
+        for content in 0..N_CONTENTS {
+            all_forms.push(FormCase { threads: vec![FormThread { tl_pre: pre.clone(), steps: (0..N_FORMS).map(|form| FormStep { form, content }).collect() }] });
+        }
+    }
+    run.drive_enum("settings_forms_grid", all_forms, |c| judge_forms(&run, c, &selftest));
+    run.drive("settings_forms", run.scale(120, 3000), forms_strategy(), |c| judge_forms(&run, c, &selftest));
+    // cancel histories
+    run.drive("cancel_histories", run.scale(45, 1500), cancel_strategy(), |c| judge_cancel(&run, c, &selftest));
     run.finish();
 }
